@@ -243,6 +243,58 @@ pub fn gen_hist(rng: &mut Rng, n: usize, max: u64, zero_len: bool, merges: bool,
     Hist { init, ops }
 }
 
+/// A LARGE set (thorough tier; the driver judges such cases with sweep-based spec evaluation, not with the model): `n` short
+/// intervals `[10i, 10i + 2..6)` in start order, loaded in bulk, plus long intervals that bridge the SEAMS of every
+/// power-of-two block size from 2^8 to 2^13 (an interval starting 1..9 places before a multiple of the block size and reaching
+/// ~10 places beyond it) — a threshold on the number of intervals, or work split into blocks and stitched together, shows
+/// only here. Returns the history and query points around the seams.
+pub fn gen_large_hist(rng: &mut Rng, n: usize, val0: u64) -> (Hist, Vec<u64>) {
+    // positions IN START ORDER at which a seam-bridging interval sits: 1..9 places before a multiple of a block size
+    let mut targets: Vec<(u64, u64)> = vec![];
+    for p in [256u64, 512, 1024, 2048, 4096, 8192, 65536] {
+        for k in [1u64, 2, 3, 5, 16] { let seam = k * p; if seam + 40 < n as u64 { targets.push((seam - rng.range(1, 9), seam)); } }
+    }
+    targets.sort();
+    targets.dedup_by_key(|x| x.0);
+    let last_seam = targets.last().map(|x| x.1).unwrap_or(0);
+    let mut init: Vec<(u64, u64, u64)> = vec![];
+    let mut pts = vec![];
+    let mut b = 0u64; // next short interval
+    let mut ti = 0usize;
+    while init.len() < n {
+        if ti < targets.len() && init.len() as u64 == targets[ti].0 {
+            // starts just before short interval b, reaches 2..8 short intervals beyond the seam
+            let (at, seam) = targets[ti];
+            let s = 10 * b - rng.range(1, 3);
+            let e = 10 * (b + (seam - at) + rng.range(2, 8)) + rng.below(9);
+            init.push((s, e, val0 + 1_000_000 + seam));
+            pts.extend([s, e, 10 * b, e - 1]);
+            ti += 1;
+        } else {
+            init.push((10 * b, 10 * b + 2 + if b % 7 == 0 { 4 } else { 0 }, val0 + b));
+            b += 1;
+        }
+    }
+    // beyond the last seam (so that the positions above stay where they are): nested and duplicated intervals, random bridges,
+    // and one long interval over several hundred short ones
+    let lo = last_seam + 30;
+    if b > lo + 450 {
+        for _ in 0..25 { let i = lo + rng.below(b - lo - 420); let len = if rng.chance(1, 3) { rng.range(30, 140) } else { rng.range(1, 25) }; init.push((10 * i + 1, 10 * i + 1 + len, val0 + 2_000_000 + i)); pts.push(10 * i + 1); }
+        let i = lo + rng.below(b - lo - 420); init.push((10 * i + 3, 10 * (i + 300) + 1, val0 + 3_000_000)); pts.push(10 * i + 3); pts.push(10 * (i + 300) + 1);
+    }
+    if rng.chance(1, 2) { rng.shuffle(&mut init); }
+    (Hist { init, ops: if rng.chance(1, 3) { vec![Op::SetCov] } else { vec![] } }, pts)
+}
+/// ascending queries around the given points and at random places of a large set
+pub fn large_queries(rng: &mut Rng, pts: &[u64], n: usize, k: usize) -> Vec<(u64, u64)> {
+    let mut starts: Vec<u64> = (0..k).map(|_| if rng.chance(2, 3) { let p = *rng.pick(pts); p.saturating_sub(rng.below(3)) + rng.below(3) } else { rng.below(10 * n as u64 + 50) }).collect();
+    starts.sort();
+    starts.into_iter().map(|s| (s, s + match rng.below(4) { 0 => 1, 1 => rng.range(2, 30), 2 => rng.range(30, 400), _ => rng.range(400, 100_000) })).collect()
+}
+/// a coordinate type that can hold a large set (coordinates up to ~10 n, sums of lengths up to ~10 n)
+pub fn large_ltype(rng: &mut Rng) -> u64 { *rng.pick(&[0u64, 0, 1, 2, 6, 8, 9]) }
+pub const LARGE_SIZES: &[usize] = &[9_000, 20_001, 70_000];
+
 pub fn shrink_hist(h: &Hist) -> Vec<Hist> {
     let mut out = vec![];
     for init in shrink_vec(&h.init) { out.push(Hist { init, ops: h.ops.clone() }); }
